@@ -66,6 +66,10 @@ macro "step_cases" h:ident : tactic =>
 @[simp] theorem resolve_stopConsumed (s : St) (it : Item) (r : Res) : (s.resolve it r).stopConsumed = s.stopConsumed := by
   unfold St.resolve; split <;> rfl
 
+@[simp] theorem resolve_startReported (s : St) (it : Item) (r : Res) :
+    (s.resolve it r).startReported = s.startReported := by
+  unfold St.resolve; split <;> rfl
+
 theorem resolve_resolved (s : St) (it : Item) (r : Res) :
     (s.resolve it r).resolved = if it.call then s.resolved ++ [(it.id, r)] else s.resolved := by
   unfold St.resolve; split <;> rfl
@@ -171,6 +175,12 @@ theorem invR_step (s : St) (e : Ev) (s' : St) (hi : InvR s) (h : step s e = some
 def tokOk : Pc → Tok → Bool
   | _, .unnamed => true
   | .init, .reserved => true
+  | .failRelease, .reserved => true
+  | .failRelease, _ => false
+  | .failReport, .dropped => true
+  | .failReport, _ => false
+  | .failReturn, .dropped => true
+  | .failReturn, _ => false
   | .startFailed, .dropped => true
   | .exited _, .dropped => true
   | .init, _ => false
@@ -193,6 +203,9 @@ theorem invK_step (s : St) (e : Ev) (s' : St) (hi : InvK s) (h : step s e = some
 
 def agree : Life → Pc → Bool
   | .fresh, .init => true
+  | .deadStart, .failRelease => true
+  | .deadStart, .failReport => true
+  | .deadStart, .failReturn => true
   | .deadStart, .startFailed => true
   | .started, .preStarted => true
   | .started, .postStart => true
